@@ -407,6 +407,35 @@ class Model:
                         and all(isinstance(v, ast.Dict) and v.values and all(isinstance(w, ast.Tuple) and len(w.elts) == 2 and all(isinstance(e, ast.Attribute) for e in w.elts)
                                                                                  for w in v.values) for v in n.value.values):
                     pair_tables.append(n)
+            flat = []
+            if len(pair_tables) != 1:
+                # flat rows (Class, 'slot', (Class.f_a, Class.f_b)) - in a local, or written where the loop iterates
+                for n in ast.walk(f.node):
+                    if isinstance(n, (ast.Tuple, ast.List)) and len(n.elts) >= 4 and all(
+                            isinstance(r, ast.Tuple) and len(r.elts) == 3 and isinstance(r.elts[1], ast.Constant) and isinstance(r.elts[1].value, str)
+                            and isinstance(r.elts[2], ast.Tuple) and len(r.elts[2].elts) == 2 and all(isinstance(e, ast.Attribute) for e in r.elts[2].elts)
+                            for r in n.elts):
+                        flat.append(n)
+            if len(pair_tables) != 1 and len(flat) == 1:
+                halves = [{}, {}]
+                for r in flat[0].elts:
+                    kc = local_alias.get(ast.unparse(r.elts[0]), ast.unparse(r.elts[0])).split('.')[-1]
+                    for i in (0, 1):
+                        e = r.elts[2].elts[i]
+                        vc = local_alias.get(ast.unparse(e.value), ast.unparse(e.value)).split('.')[-1]
+                        halves[i][(kc, r.elts[1].value)] = (vc, e.attr, e.lineno)
+                score = [sum(v[1].endswith('_lsb0') for v in d.values()) - sum(v[1].endswith('_msb0') for v in d.values()) for d in halves]
+                if score[0] == score[1]:
+                    raise AnalysisError("Options.set_lsb0: cannot tell the lsb0 half of the pairs from the msb0 half (needs a human)")
+                hi = 0 if score[0] > score[1] else 1
+                self.switch = {'lsb0': halves[hi], 'msb0': halves[1 - hi]}
+                self.switch_names = {'lsb0': '<rows>', 'msb0': '<rows>'}
+                self.switch_pair_index = {'lsb0': hi, 'msb0': 1 - hi}
+                self.switch_rows = flat[0]
+                for mode, d in self.switch.items():
+                    for (c, s2), (vc, vf, _) in d.items():
+                        self.slots[(c, s2)][mode] = (vc, vf)
+                return
             if len(pair_tables) != 1:
                 raise AnalysisError("anchor vanished: the mode tables (dict literals of dict literals) not found in Options.set_lsb0")
             n = pair_tables[0]
